@@ -2,6 +2,7 @@
 from __future__ import annotations
 
 import math
+import os
 import random
 from fractions import Fraction
 from typing import Any, Dict, List
@@ -16,7 +17,23 @@ def clip(v: int) -> int:
     return max(-BIG, min(BIG, v))
 
 
-def abstract_entries(events: List[Dict[str, Any]], base: int, u: int) -> List[Dict[str, Any]]:
+def corr_map(events: List[Dict[str, Any]]) -> Dict[int, int]:
+    """Correlation ids of a file renamed, order preserving, to 0, 1, 2, ... when some id is too large for TLC's 32-bit integers (ids
+    up to 2^32 - 1 are legitimate: CUPTI counts them unsigned).  Equality and order of the ids are all the specification uses.  A value
+    the file does not contain (what a wrapped id looks like) is shown to TLC as -5."""
+    vals = sorted({int((e.get("args") or {}).get("correlation", -1)) for e in events if hta.is_complete(e)} - {-1})
+    if not vals or vals[-1] < BIG:
+        return {}
+    return {v: i for i, v in enumerate(vals)}
+
+
+def _cm(cmap: Dict[int, int], v: int) -> int:
+    if not cmap or v == -1:
+        return clip(v)
+    return cmap.get(v, -5)
+
+
+def abstract_entries(events: List[Dict[str, Any]], base: int, u: int, cmap: Dict[int, int] = {}) -> List[Dict[str, Any]]:
     out = []
     for i, e in enumerate(events):
         if hta.is_complete(e):
@@ -35,11 +52,11 @@ def abstract_entries(events: List[Dict[str, Any]], base: int, u: int) -> List[Di
         dur = Fraction(e["dur"]) * u
         assert ts.denominator == 1 and dur.denominator == 1, (e, u)
         out.append({"id": i, "kind": "X", "ts": int(ts), "dur": int(dur), "pid": e["pid"], "tid": e["tid"],
-                    "stream": clip(int(a.get("stream", -1))), "corr": int(a.get("correlation", -1)), "name": e["name"], "cat": e["cat"]})
+                    "stream": clip(int(a.get("stream", -1))), "corr": _cm(cmap, int(a.get("correlation", -1))), "name": e["name"], "cat": e["cat"]})
     return out
 
 
-def project_frame(df, sym_table: List[str], base: int, shifted: bool) -> List[Dict[str, Any]]:
+def project_frame(df, sym_table: List[str], base: int, shifted: bool, cmap: Dict[int, int] = {}) -> List[Dict[str, Any]]:
     cols = ["index", "ts", "dur", "end", "pid", "tid", "stream", "correlation", "name", "cat", "index_correlation", "iteration"]
     rows = []
     off = 0 if shifted else base
@@ -47,7 +64,7 @@ def project_frame(df, sym_table: List[str], base: int, shifted: bool) -> List[Di
         rows.append({
             "id": hta.ival(t[0]), "ts": clip(hta.ival(t[1]) - off), "dur": clip(hta.ival(t[2])),
             "end": clip(hta.ival(t[3]) - off), "pid": hta.ival(t[4]), "tid": hta.ival(t[5]), "stream": clip(hta.ival(t[6])),
-            "corr": clip(hta.ival(t[7])), "name": sym_table[int(t[8])], "cat": sym_table[int(t[9])],
+            "corr": _cm(cmap, hta.ival(t[7])), "name": sym_table[int(t[8])], "cat": sym_table[int(t[9])],
             "link": hta.ival(t[10]), "iter": hta.scaled(t[11], 1),      # NaN (no iteration assigned, e.g. stream 0) -> sentinel -7777
         })
     return rows
@@ -60,8 +77,14 @@ def observe_load(case: Dict[str, Any], prop: str) -> Dict[str, Any]:
     u = case["u"]
     incl = bool(case.get("incl", False))
     base = math.floor(min(Fraction(e["ts"]) for r in ranks for e in r.events if "ts" in e))
+    cmaps = {r.rank: corr_map(r.events) for r in ranks}
     obs: Dict[str, Any] = {"prop": prop, "err": "", "u": u, "incl": incl,
-                           "files": [{"rank": r.rank, "entries": abstract_entries(r.events, base, u)} for r in ranks]}
+                           "files": [{"rank": r.rank, "entries": abstract_entries(r.events, base, u, cmaps[r.rank])} for r in ranks]}
+    # an option explicitly set to its documented "off" value must behave like the unset option
+    if case.get("env_off"):
+        os.environ["HTA_DISABLE_NS_ROUNDING"] = "0"
+    else:
+        os.environ.pop("HTA_DISABLE_NS_ROUNDING", None)
     with hta.CaseDir("load") as d:
         gen.write_trace_set(ranks, d)
         try:
@@ -70,10 +93,10 @@ def observe_load(case: Dict[str, Any], prop: str) -> Dict[str, Any]:
                 t = Trace(trace_dir=d)
                 t.parse_traces(use_multiprocessing=mp)
                 st = t.symbol_table.get_sym_table()
-                frames[key] = [{"rank": r, "rows": project_frame(t.get_trace(r), st, base, False)} for r in sorted(t.traces)]
+                frames[key] = [{"rank": r, "rows": project_frame(t.get_trace(r), st, base, False, cmaps.get(r, {}))} for r in sorted(t.traces)]
             ta = TraceAnalysis(trace_dir=d, include_last_profiler_step=incl)
             st = ta.t.symbol_table.get_sym_table()
-            frames["loaded"] = [{"rank": r, "rows": project_frame(ta.t.get_trace(r), st, base, True)} for r in sorted(ta.t.traces)]
+            frames["loaded"] = [{"rank": r, "rows": project_frame(ta.t.get_trace(r), st, base, True, cmaps.get(r, {}))} for r in sorted(ta.t.traces)]
             obs.update(frames)
             obs["minTs"] = clip(hta.ival(ta.t.min_ts) - base)
             obs["iters"] = [[int(x) for x in ta.t.get_iterations(r)] for r in sorted(ta.t.traces)]
@@ -107,7 +130,7 @@ def load_cfg(rng: random.Random, tier: str, prop: str) -> gen.GenCfg:
         bwd_thread=rng.random() < 0.3,
         adv=rng.choice([(0, 0, 1, 1, 2, 3), (0, 1, 2, 5), (1, 2, 3)]),
         extras=rng.random() < 0.7, big_stream_marker=rng.random() < 0.3, p_nocorr_head=rng.choice([0.0, 0.5]),
-        corr_base=rng.choice([0, 0, 100, 32700, 70000]),
+        corr_base=rng.choice([0, 0, 100, 32700, 70000, 2 ** 31 - 3, 2 ** 32 - 2000]),      # CUPTI ids are unsigned 32-bit
         max_children=rng.choice([3, 3, 4]), max_depth=rng.choice([3, 3, 4]), ops_per_step=rng.choice([(1, 3), (2, 5)]),
     )
 
@@ -137,4 +160,4 @@ def gen_load_case(rng: random.Random, tier: str, prop: str, k: int = -1) -> Dict
                     if "ts" in e:
                         e["ts"] += delta
                 r.base += delta
-    return {"ranks": [r.__dict__ for r in ranks], "u": cfg.frac, "incl": rng.random() < 0.5}
+    return {"ranks": [r.__dict__ for r in ranks], "u": cfg.frac, "incl": rng.random() < 0.5, "env_off": rng.random() < 0.3}
